@@ -91,6 +91,11 @@ func par2Cycle(r *Run, o cycleOpts) {
 		}
 	}
 
+	if !o.big && !w.UseDefaults && t.Bool(1, 12, "foreign-writer") {
+		// the same set as another PAR2 client would have written it
+		w.RewriteAsForeignPar2(r)
+	}
+
 	// ---- optional update-and-re-protect ----
 	// a file is updated in place beyond its first 16 KiB (same name and
 	// length, so the same file id and recovery set id), the old archive
